@@ -85,10 +85,23 @@ func (c *Case) newWorld() (*world, string) {
 	}
 	files["/other"] = "other {{ n }}"
 	files["/third"] = "third"
-	set, l := px.NewSet(files)
+	// two loaders, as in C04: files whose name ends in "2" live behind the second one only, which also holds a shadow
+	// of every other file (never served while the first loader is asked first)
+	first, second := map[string]string{}, map[string]string{}
+	for k, v := range files {
+		if strings.HasSuffix(k, "2") {
+			second[k] = v
+		} else {
+			first[k] = v
+			second[k] = "SHADOW-OF-" + k
+		}
+	}
+	l, l2 := px.NewMemLoader(first), px.NewMemLoader(second)
+	set := pongo2.NewSet("verif", l, l2)
 	c04.SetGlobals(set)
 	set.Options.TrimBlocks, set.Options.LStripBlocks = c.Trim, c.Trim
 	l.OnGet = func(p string) { vsched.PointHere("loader.Get " + p) }
+	l2.OnGet = func(p string) { vsched.PointHere("loader2.Get " + p) }
 	tpl, out := px.CompileFile(set, "/main")
 	if tpl == nil {
 		return nil, out.String()
